@@ -26,7 +26,12 @@ def gen_stats():
     core.write_if_changed(core.GEN / "GenStats.v", stats.translate(core.PKG))
 
 
-ALL = [gen_share, gen_tables, gen_stats]
+def gen_pragma():
+    from pyt2coq import pragma
+    core.write_if_changed(core.GEN / "GenPragma.v", pragma.translate(core.PKG))
+
+
+ALL = [gen_share, gen_tables, gen_stats, gen_pragma]
 
 
 def gen_all(strict=True):
